@@ -30,7 +30,8 @@ type vReplayFile struct {
 		Read int `json:"read"`
 		N    int `json:"n"`
 	} `json:"fault"`
-	Params map[string]int `json:"params"`
+	ReadLens []int          `json:"read_lens"`
+	Params   map[string]int `json:"params"`
 	Expect string         `json:"expect"`
 }
 
@@ -71,11 +72,17 @@ func (vScriptedReader) Read(b []byte) (int, error) {
 		}
 		return n, errors.New("injected random source failure")
 	}
-	for i := range b {
+	n := len(b)
+	if vShort && idx < len(vRF.ReadLens) && vRF.ReadLens[idx] < n {
+		n = vRF.ReadLens[idx] // a legal short read with a nil error
+	}
+	for i := 0; i < n; i++ {
 		b[i] = vNextTapeByte()
 	}
-	return len(b), nil
+	return n, nil
 }
+
+var vShort bool
 
 func vNextTapeByte() byte {
 	if vTapePos < len(vTapeB) {
@@ -196,7 +203,7 @@ func vTapeByte(i int) byte {
 }
 func vFaultAt(k, n int)    { vFaultRd, vFaultN = vReadCnt+k, n }
 func vFaultHit() bool      { return vFaultWas }
-func vShortReads(on bool)  {}
+func vShortReads(on bool)  { vShort = on }
 func vOrderChoice(on bool) {}
 func vBeginCall()          {}
 func vEndCall()            {}
